@@ -392,7 +392,8 @@ int main(int argc, char** argv){
     g_calibrate = a.mode == "calibrate";
     pbt::GenCfg g; g.dim = 3; g.real = RealCode; g.cubic = true; g.charges = true; g.noCoincident = true; g.noCentre = true; g.exactFacesOnly = true; g.twoGroupings = true; g.autoBlock = false;
     g.tsm = TSMN != 0; g.periodic = Periodic; g.maxExtraLevels = 2;
-    g.minH = Periodic ? 2 : 1; g.maxH = int(a.getInt("maxh", Periodic ? 4 : 6)); g.maxN = int(a.getInt("maxn", Periodic ? 60 : 300));
+    // heights: rotation kernel 1..7 (C04's quantifier), uniform kernel 1..6 (C05's), periodic 2..4 (cost of the image sum), float <= 5
+    g.minH = Periodic ? 2 : 1; g.maxH = int(a.getInt("maxh", Periodic ? 4 : (KERNEL == 1 ? 7 : 6))); g.maxN = int(a.getInt("maxn", Periodic ? 60 : 300));
     if(RealCode == 1) g.maxH = std::min(g.maxH, 5);
     if(RealCode == 1 && KERNEL == 1) g.widthDecades = 1;     // float rotation kernel: box width^(P+1) must stay in the float range (known finding F-ROT-FLOAT-RANGE)
 #if RT == 1
